@@ -280,14 +280,32 @@ fn judge(cfg: &Cfg, cmd: &clap::Command, prefix: &[Vec<u8>], tail: &[Vec<u8>], h
                     split_commas(&got) == split_commas(&want)
                 }
             } else {
-                got.len() >= tail.len()
-                    && got[got.len() - tail.len()..] == tail[..]
-                    && split_commas(&got[..got.len() - tail.len()]) == split_commas(&pos)
+                // values given before `--` are still split at the declared delimiter (only the
+                // trailing ones are exempt); which of them go to a leading positional without a
+                // delimiter is known when the order is the plain one
+                let rest_delim = cfg.spec.arg("rest").map(|r| r.delimiter.is_some()).unwrap_or(false);
+                let plain_order = !cfg.spec.has(Setting::AllowMissingPositional) && !low_index;
+                let prefix_ok = |gp: &[Vec<u8>]| -> bool {
+                    if rest_delim && plain_order {
+                        let want: Vec<Vec<u8>> = if cfg.spec.arg("f").is_some() {
+                            pos.iter().take(1).cloned().chain(split_commas(&pos[pos.len().min(1)..])).collect()
+                        } else {
+                            split_commas(&pos)
+                        };
+                        gp == want.as_slice()
+                    } else {
+                        split_commas(gp) == split_commas(&pos)
+                    }
+                };
+                got.len() >= tail.len() && got[got.len() - tail.len()..] == tail[..] && prefix_ok(&got[..got.len() - tail.len()])
             };
             if !ok {
                 let mut want = pos.clone();
                 want.extend(tail.iter().cloned());
-                let cause = if got.len() > want.len() && cfg.spec.has(Setting::DontDelimitTrailingValues) {
+                let tail_verbatim = got.len() >= tail.len() && got[got.len() - tail.len()..] == tail[..];
+                let cause = if tail_verbatim && !cfg.delim_split {
+                    "values given before `--` differ from what the same tokens give without a tail (delimiter splitting)"
+                } else if got.len() > want.len() && cfg.spec.has(Setting::DontDelimitTrailingValues) {
                     "a value after `--` was split although trailing values are not to be delimited"
                 } else if got.len() < want.len() {
                     "a token after `--` did not reach the positionals"
